@@ -94,11 +94,12 @@ def enable_and_driver_result(ctx):
     NONE = m.enum('CO_ERR_NONE')
     # COParaStore
     f = 'COParaStore'
-    for en in (0, 1):
+    for val in (0, 1, 2, 3):
+        en = val & 1
         for wrote in (16, 15, 0):
-            trs = _run(m, f, {'pg->Value': en | 2, 'pg->Size': 16, 'pg->Offset': 0x40, 'pg->Start': 0x999,
+            trs = _run(m, f, {'pg->Value': val, 'pg->Size': 16, 'pg->Offset': 0x40, 'pg->Start': 0x999,
                               'call:COIfNvmWrite': wrote})
-            site = 'COParaStore enabled=%d driver wrote %d of 16' % (en, wrote)
+            site = 'COParaStore group flags=%d (on-command=%d) driver wrote %d of 16' % (val, en, wrote)
             bad = None
             for t in trs:
                 drv = [c for c in t.calls() if c[1] == 'COIfNvmWrite']
@@ -112,14 +113,15 @@ def enable_and_driver_result(ctx):
                     bad = 'returns %s' % t.ret
             if bad:
                 ctx.ob(P, 'RF8-para-nvm', f, site, None)
-                ctx.find(P, 'RF8-para-nvm', f, 'store:%d:%d' % (en, wrote), m.loc(f, m.funcs[f].line), '%s: %s' % (site, bad))
+                ctx.find(P, 'RF8-para-nvm', f, 'store:%d:%d' % (val, wrote), m.loc(f, m.funcs[f].line), '%s: %s' % (site, bad))
             else:
                 ctx.ob(P, 'RF8-para-nvm', f, site, 'ok')
     f = 'COParaRestore'
-    for en in (0, 1):
+    for val in (0, 1, 2, 3):
+        en = val & 1
         for err in (0, 1):
-            trs = _run(m, f, {'pg->Value': en, 'call:COParaDefault': err})
-            site = 'COParaRestore enabled=%d callback result %d' % (en, err)
+            trs = _run(m, f, {'pg->Value': val, 'call:COParaDefault': err})
+            site = 'COParaRestore group flags=%d (on-command=%d) callback result %d' % (val, en, err)
             bad = None
             for t in trs:
                 cb = [c for c in t.calls() if c[1] == 'COParaDefault']
@@ -131,7 +133,7 @@ def enable_and_driver_result(ctx):
                     bad = 'returns %s' % t.ret
             if bad:
                 ctx.ob(P, 'RF8-para-nvm', f, site, None)
-                ctx.find(P, 'RF8-para-nvm', f, 'restore:%d:%d' % (en, err), m.loc(f, m.funcs[f].line), '%s: %s' % (site, bad))
+                ctx.find(P, 'RF8-para-nvm', f, 'restore:%d:%d' % (val, err), m.loc(f, m.funcs[f].line), '%s: %s' % (site, bad))
             else:
                 ctx.ob(P, 'RF8-para-nvm', f, site, 'ok')
     # CONodeParaLoad: groups of the requested type only; short read surfaces
@@ -163,6 +165,50 @@ def enable_and_driver_result(ctx):
                     ctx.find(P, 'RF8-para-nvm', f, 'load:%s:%s:%d' % (rtype, gtype, got), m.loc(f, m.funcs[f].line), '%s: %s' % (site, bad))
                 else:
                     ctx.ob(P, 'RF8-para-nvm', f, site, 'ok')
+
+
+def hal_forwarding(ctx):
+    """COIfNvmWrite / COIfNvmRead hand the request to the driver: every driver call must address the same byte
+    of the caller's buffer and of the NVM area (start + k, buffer + k, at most size - k for one k), and the
+    returned count is what the driver calls reported in total.  A wrapper that re-issues the remainder of a
+    short transfer with a mismatched pointer stores the wrong bytes under a full-length count."""
+    m = ctx.m
+    for f, slot in (('COIfNvmWrite', 'Write'), ('COIfNvmRead', 'Read')):
+        m.need(f)
+        for first in (16, 6, 0):
+            for second in (10, 3, 0):
+                pe = PEval(m, f)
+                pe.record_sets = False
+                pe.store_filter = lambda k, fld: False
+                drv = 'CO_IF_NVM_DRV.%s' % slot
+                trs = pe.run({'cif': 1, 'start': 0x1000, 'buffer': 0x5000, 'size': 16,
+                              'call:%s#0' % drv: first, 'call:%s' % drv: second})
+                site = '%s: driver reports %d then %d of 16 bytes' % (f, first, second)
+                bad = None
+                for t in trs:
+                    calls = [c for c in t.calls() if c[1] == drv]
+                    if not calls:
+                        bad = 'no driver call (calls: %s)' % t.call_names()
+                        break
+                    total = 0
+                    for i, c in enumerate(calls):
+                        a = c[2]
+                        if None in a[:3]:
+                            bad = 'driver call %d with unresolvable arguments %s' % (i, a)
+                            break
+                        k = a[0] - 0x1000
+                        if a[1] - 0x5000 != k or a[2] > 16 - k or k < 0 or k != total:
+                            bad = 'driver call %d addresses NVM offset +%d with buffer offset +%d and %d bytes after %d bytes ' \
+                                  'were transferred (request: 16 bytes)' % (i, k, a[1] - 0x5000, a[2], total)
+                            break
+                        total += first if i == 0 else second
+                    if bad is None and t.ret != total:
+                        bad = 'returns %s, the driver calls transferred %d' % (t.ret, total)
+                if bad:
+                    ctx.ob(P, 'RF8-hal-forward', f, site, None)
+                    ctx.find(P, 'RF8-hal-forward', f, 'forward:%d:%d' % (first, second), m.loc(f, m.funcs[f].line), '%s: %s' % (site, bad))
+                else:
+                    ctx.ob(P, 'RF8-hal-forward', f, site, 'arguments forwarded consistently, count returned')
 
 
 def load_points(ctx):
@@ -244,6 +290,7 @@ def load_points(ctx):
 
 
 def run(ctx):
+    hal_forwarding(ctx)
     signature_and_fanout(ctx)
     enable_and_driver_result(ctx)
     load_points(ctx)
